@@ -175,8 +175,17 @@ def project_prms(prms):
         'sepl': [need_int(x, 'MIN_SEP_LIMS') for x in prms['MIN_SEP_LIMS']],
         'minokta': need_int(prms['LAYERING_PRMS']['min_okta_to_split'], 'min_okta_to_split'),
         'minpts': 30,
+        'pad': pad_of(prms),
     }
     return out
+
+
+def pad_of(prms):
+    try:
+        x = prms['GROUPING_PRMS']['height_pad_perc']
+        return int(x) if float(x) == int(x) and x >= 0 else -1
+    except Exception:
+        return -1
 
 
 def dt_ranks(dts):
@@ -526,7 +535,7 @@ CANON = [('construct', ''), ('find_slices', ''), ('find_groups', ''), ('find_lay
 
 
 DUMMY_PRM = {'hasmsa': False, 'msa': 0, 'buf': 0, 'h0': 0, 'h8': 0, 'p': 5, 'lb': 100, 'excl': [], 'sepv': [250], 'sepl': [],
-             'minokta': 2, 'minpts': 30}
+             'minokta': 2, 'minpts': 30, 'pad': -1}
 NO_CANON = {'has': False, 'ng': 'zero', 'merged': False, 'split': False, 'tbl': {w: [] for w in WHICH}, 'msg': {w: [] for w in WHICH},
             'ids': {'s': [], 'g': [], 'l': []}}
 
